@@ -3,13 +3,17 @@ package main
 import (
 	"flag"
 	"fmt"
+	"reflect"
 	"strings"
+	"unsafe"
 
 	"github.com/mit-pdos/go-journal/addr"
 	"github.com/mit-pdos/go-journal/alloc"
 	"github.com/mit-pdos/go-journal/common"
+	"github.com/mit-pdos/go-nfsd/fh"
 	"github.com/mit-pdos/go-nfsd/fstxn"
 	"github.com/mit-pdos/go-nfsd/nfs"
+	"github.com/mit-pdos/go-nfsd/nfstypes"
 	"github.com/mit-pdos/go-nfsd/super"
 )
 
@@ -44,7 +48,7 @@ func joinRuns(rs []string) string {
 // mkfsOne formats a sparse disk of sz blocks with the real code and reports
 // what it did; also checks the "fully usable" oracle directly on the real
 // allocator: every data block is handed out exactly once, nothing else is.
-func mkfsOne(sz uint64, fill bool) (line string, oracle string) {
+func mkfsOne(sz uint64, fill bool, useFree bool) (line string, oracle string) {
 	d := NewSparseDisk(sz)
 	s := super.MkFsSuper(d)
 	panicked := false
@@ -141,6 +145,15 @@ func mkfsOne(sz uint64, fill bool) (line string, oracle string) {
 		return line, fmt.Sprintf("size %d: the format is accepted but a server does not start on it", sz)
 	}
 	defer func() { guardedCall(func() { srv.ShutdownNfs() }) }()
+	// ... and USED AND FREED through normal operations: a file written where the allocator's
+	// roving pointer stands (any pointer value is a legal allocator state) takes its blocks from
+	// there, and removing it gives back exactly those blocks — at the first and the last block of
+	// the data region and on both sides of every bitmap-block boundary inside it
+	if useFree {
+		if msg := useAndFree(srv, st, s, sz); msg != "" {
+			return line, msg
+		}
+	}
 	inUse := map[uint64]bool{}
 	for k := uint64(0); k < s.NBlockBitmap; k++ {
 		blk := st.Txn.Load(addr.MkAddr(uint64(s.BitmapBlockStart())+k, 0), common.NBITBLOCK).Data
@@ -174,6 +187,7 @@ func cmdMkfs(fs *flag.FlagSet, args []string) {
 	to := fs.Uint64("to", 1950, "last size (inclusive)")
 	around := fs.String("around", "", "comma-separated centres; sizes centre-40..centre+40 are added")
 	fill := fs.Bool("fill", true, "run the allocator exhaustion oracle")
+	useFreeEvery := fs.Uint64("usefree", 1, "run the use-and-free oracle on every Nth size (and on every size within 40 of a bitmap-block boundary)")
 	fs.Parse(args)
 	var sizes []uint64
 	for s := *from; s <= *to; s++ {
@@ -189,10 +203,102 @@ func cmdMkfs(fs *flag.FlagSet, args []string) {
 		}
 	}
 	for _, sz := range sizes {
-		line, oracle := mkfsOne(sz, *fill)
+		near := sz%common.NBITBLOCK <= 40 || sz%common.NBITBLOCK >= common.NBITBLOCK-40
+		line, oracle := mkfsOne(sz, *fill, *fill && (near || sz%*useFreeEvery == 0))
 		emit("%s", line)
 		if oracle != "" {
 			emit("# ORACLE %s", oracle)
 		}
 	}
+}
+
+func diskBitmap(st *fstxn.FsState, s *super.FsSuper) []byte {
+	var bm []byte
+	for k := uint64(0); k < s.NBlockBitmap; k++ {
+		bm = append(bm, st.Txn.Load(addr.MkAddr(uint64(s.BitmapBlockStart())+k, 0), common.NBITBLOCK).Data...)
+	}
+	return bm
+}
+
+func bitDiff(a, b []byte) (only []uint64) {
+	for i := range a {
+		if a[i] != b[i] {
+			for k := uint64(0); k < 8; k++ {
+				if (a[i]^b[i])&(1<<k) != 0 {
+					only = append(only, uint64(i)*8+k)
+				}
+			}
+		}
+	}
+	return
+}
+
+func useAndFree(srv *nfs.Nfs, st *fstxn.FsState, s *super.FsSuper, sz uint64) string {
+	ds := uint64(s.DataStart())
+	points := []uint64{ds, ds + 1, sz - 3, sz - 2, sz - 1}
+	for b := uint64(common.NBITBLOCK); b < sz; b += common.NBITBLOCK {
+		if b > ds+2 {
+			points = append(points, b-2, b-1, b)
+		}
+	}
+	root := fh.MkRootFh3()
+	nextp := reflect.ValueOf(st.Balloc).Elem().FieldByName("next")
+	for _, p := range points {
+		if p <= ds || p >= sz {
+			continue
+		}
+		b0 := diskBitmap(st, s)
+		free0 := st.Balloc.NumFree()
+		if free0 < 3 {
+			continue // a disk this small cannot hold the file: a short WRITE is the right answer
+		}
+		*(*uint64)(unsafe.Pointer(nextp.UnsafeAddr())) = p - 1
+		var msg string
+		ok := guardedCall(func() {
+			where := nfstypes.Diropargs3{Dir: root, Name: "u"}
+			c := srv.NFSPROC3_CREATE(nfstypes.CREATE3args{Where: where})
+			if c.Status != nfstypes.NFS3_OK {
+				msg = fmt.Sprintf("CREATE on the fresh file system answers %d", c.Status)
+				return
+			}
+			f := c.Resok.Obj.Handle
+			w := srv.NFSPROC3_WRITE(nfstypes.WRITE3args{File: f, Offset: 0, Count: 3 * 4096, Stable: nfstypes.FILE_SYNC, Data: make([]byte, 3*4096)})
+			if w.Status != nfstypes.NFS3_OK || w.Resok.Count != 3*4096 {
+				msg = fmt.Sprintf("a 3-block WRITE with the allocator standing at block %d answers %d (count %d)", p, w.Status, w.Resok.Count)
+				return
+			}
+			b1 := diskBitmap(st, s)
+			got := bitDiff(b0, b1)
+			if len(got) != 3 {
+				msg = fmt.Sprintf("a 3-block WRITE with the allocator standing at block %d changed bits %v of the block bitmap", p, got)
+				return
+			}
+			for _, g := range got {
+				if g < ds || g >= sz || b0[g/8]&(1<<(g%8)) != 0 {
+					msg = fmt.Sprintf("a 3-block WRITE with the allocator standing at block %d took block %d (data region [%d,%d))", p, g, ds, sz)
+					return
+				}
+			}
+			r := srv.NFSPROC3_REMOVE(nfstypes.REMOVE3args{Object: where})
+			if r.Status != nfstypes.NFS3_OK {
+				msg = fmt.Sprintf("REMOVE of a file holding blocks %v answers %d", got, r.Status)
+				return
+			}
+			b2 := diskBitmap(st, s)
+			if left := bitDiff(b0, b2); len(left) != 0 {
+				msg = fmt.Sprintf("after REMOVE of a file holding blocks %v the block bitmap still differs at %v", got, left)
+				return
+			}
+			if f1 := st.Balloc.NumFree(); f1 != free0 {
+				msg = fmt.Sprintf("after REMOVE of a file holding blocks %v the allocator counts %d free blocks, before the file existed %d", got, f1, free0)
+			}
+		})
+		if !ok {
+			return fmt.Sprintf("size %d: writing and removing a 3-block file with the allocator standing at block %d panics or hangs", sz, p)
+		}
+		if msg != "" {
+			return fmt.Sprintf("size %d: %s", sz, msg)
+		}
+	}
+	return ""
 }
